@@ -120,8 +120,8 @@ class FlowMixin:
                 return self.take_axis(base, idx, st, n)
         if isinstance(base, (SArr, LArr)):
             idx = self.index_list(n.slice, st)
-            if len(idx) == len(shape_of(base)) and sum(1 for i in idx if isinstance(i, (LArr, SArr))) == 1 and all(
-                    isinstance(i, (LArr, SArr)) or _full_slice(i) for i in idx):
+            if len(idx) == len(shape_of(base)) and len(idx) >= 2 and sum(1 for i in idx if isinstance(i, (LArr, SArr))) == 1 and all(
+                    (isinstance(i, (LArr, SArr)) and len(shape_of(i)) == 1 and dtype_of(i) == "i") or _full_slice(i) for i in idx):
                 return self.take_axis(base, idx, st, n)
         return super().e_Subscript(ast.Subscript(value=_Lit(base), slice=n.slice, ctx=n.ctx, lineno=n.lineno, col_offset=0), st)
 
